@@ -249,4 +249,76 @@ example :
       [("name", "Name", false, false), ("user_id", "id", true, true), ("ro", "ro", true, false), ("ageX", "Age_x", false, false)] := by
   decide
 
+theorem lookup_none_of_not_mem {β : Type} (a : String) : ∀ L : List (String × β), a ∉ L.map Prod.fst → L.lookup a = none := by
+  intro L
+  induction L with
+  | nil => intro _; rfl
+  | cons x xs ih =>
+    intro h
+    obtain ⟨k, v⟩ := x
+    simp only [List.map_cons, List.mem_cons, not_or] at h
+    have : (a == k) = false := by simpa using h.1
+    simp only [List.lookup_cons, this]
+    exact ih h.2
+
+
+/-- round trip in the presence of `,omitempty` and tag options: for every key list whose key NAMES and field names are
+    pairwise distinct, and values for which "empty" means "zero" (numbers, strings, booleans, nil pointers / slices / maps;
+    NOT a non-nil empty slice or map, which encoding/json omits and which therefore comes back nil), Unmarshal(Marshal(v))
+    restores every exported-or-settable field that is exported or has a getter and yields zero otherwise — an omitted
+    entry is read back as the zero value it stood for -/
+theorem C11_roundtrip_omitempty {V : Type} (zero : V) (empty : V → Bool) (name : String → String) (om : String → Bool)
+    (ks : List JKey) (s s0 : St V) (k : JKey) (hk : k ∈ ks)
+    (hkeys : (ks.map (fun k => name k.key)).Nodup) (hnames : (ks.map (·.name)).Nodup)
+    (hset : (k.exported || k.hasSet) = true) (hz : ∀ v, empty v = true → v = zero) :
+    (unmarshalO zero name ks (marshalO zero empty name om ks s) s0) k.name =
+      (if k.exported || k.hasGet then s k.name else zero) := by
+  unfold unmarshalO marshalO
+  have hk' : ({ k with key := name k.key } : JKey) ∈ withNames name ks := List.mem_map.mpr ⟨k, hk, rfl⟩
+  have hnames' : ((withNames name ks).map (·.name)).Nodup := by
+    simpa [withNames, List.map_map, Function.comp_def] using hnames
+  rw [unmarshal_at zero _ (withNames name ks) s0 _ hk' hnames' hset]
+  by_cases hkeep : (om k.key && empty (valOf zero s k)) = true
+  · -- left out of the document: the lookup finds nothing, and the value it stood for was zero
+    have hzero : valOf zero s k = zero := hz _ (by simp only [Bool.and_eq_true] at hkeep; exact hkeep.2)
+    have hnot : name k.key ∉ (marshal zero (withNames name (ks.filter (fun k => !(om k.key && empty (valOf zero s k))))) s).map Prod.fst := by
+      rw [C11_marshal_keys]
+      simp only [withNames, List.map_map, Function.comp_def, List.mem_map, List.mem_filter, not_exists, not_and]
+      intro x hx hxe
+      have hxk : x = k := eq_of_nodup_map hkeys x hx.1 k hk hxe
+      subst hxk
+      simp [hkeep] at hx
+    rw [lookup_none_of_not_mem _ _ hnot]
+    simpa [valOf] using hzero.symm
+  · have hmem : ({ k with key := name k.key } : JKey) ∈
+        withNames name (ks.filter (fun k => !(om k.key && empty (valOf zero s k)))) :=
+      List.mem_map.mpr ⟨k, List.mem_filter.mpr ⟨hk, by cases h : (om k.key && empty (valOf zero s k)) <;> simp_all⟩, rfl⟩
+    have hkeys' : ((withNames name (ks.filter (fun k => !(om k.key && empty (valOf zero s k))))).map (·.key)).Nodup := by
+      have : (withNames name (ks.filter (fun k => !(om k.key && empty (valOf zero s k))))).map (·.key) =
+          (ks.filter (fun k => !(om k.key && empty (valOf zero s k)))).map (fun k => name k.key) := by
+        simp [withNames, List.map_map, Function.comp_def]
+      rw [this]
+      exact (List.Sublist.map _ List.filter_sublist).nodup hkeys
+    rw [lookup_marshal zero s _ _ hmem hkeys']
+    rfl
+
+/-- without options the refined model is the plain one -/
+theorem C11_omitempty_conservative {V : Type} (zero : V) (empty : V → Bool) (ks : List JKey) (s : St V) :
+    marshalO zero empty (fun k => k) (fun _ => false) ks s = marshal zero ks s := by
+  unfold marshalO withNames
+  have hf : ks.filter (fun k => !((fun _ => false) k.key && empty (valOf zero s k))) = ks :=
+    List.filter_eq_self.mpr (by intro a _; simp)
+  rw [hf]
+  congr 1
+  exact List.map_id' ks
+
+example : (unmarshalO (0 : Nat) (fun k => if k = "n,omitempty" then "n" else k)
+    [⟨"n,omitempty", "n", true, false, false, false, false⟩, ⟨"m", "m", true, false, false, false, false⟩]
+    (marshalO 0 (· == 0) (fun k => if k = "n,omitempty" then "n" else k) (fun k => k == "n,omitempty")
+      [⟨"n,omitempty", "n", true, false, false, false, false⟩, ⟨"m", "m", true, false, false, false, false⟩] (fun f => if f = "m" then 7 else 0))
+    (fun _ => 99)) "n" = 0 ∧
+    (marshalO 0 (· == 0) (fun k => if k = "n,omitempty" then "n" else k) (fun k => k == "n,omitempty")
+      [⟨"n,omitempty", "n", true, false, false, false, false⟩, ⟨"m", "m", true, false, false, false, false⟩] (fun f => if f = "m" then 7 else 0))
+      = [("m", 7)] := by decide
+
 end ShootVerif.Json
